@@ -1,3 +1,4 @@
+use vstd::std_specs::cmp::*;
 // ===== TRUSTED: assumed specifications of std (T-std) =====
 pub assume_specification<T>[ std::slice::from_ref ](x: &T) -> (r: &[T])
     ensures r@ == seq![*x],
@@ -10,3 +11,20 @@ pub assume_specification<T, U, F>[ std::option::Option::<T>::map_or ](o: Option<
         o is None ==> r == d,
         o is Some ==> f.ensures((o->Some_0,), r),
 ;
+
+// std::cmp::max / min: "Compares and returns the maximum (minimum) of two values."
+pub assume_specification<T>[ std::cmp::max ](a: T, b: T) -> (r: T)
+    where T: std::cmp::Ord + std::marker::Destruct,
+    ensures
+        T::obeys_cmp_spec() ==> r == (if a.cmp_spec(&b) == std::cmp::Ordering::Greater { a } else { b }),
+;
+
+pub assume_specification<T>[ std::cmp::min ](a: T, b: T) -> (r: T)
+    where T: std::cmp::Ord + std::marker::Destruct,
+    ensures
+        T::obeys_cmp_spec() ==> r == (if a.cmp_spec(&b) == std::cmp::Ordering::Greater { b } else { a }),
+;
+
+#[verifier::external_type_specification]
+#[verifier::external_body]
+pub struct ExIoError(std::io::Error);
